@@ -66,9 +66,9 @@ TOOL_ENV = {"ASAN_OPTIONS": "detect_leaks=0:abort_on_error=0:exitcode=99:allocat
 MSGS = ["tools.msg", "cmdarg.msg", "ioerrs.msg"]
 
 SIZES = {  # tier -> sample sizes
-    "quick": dict(generic=2600, data=1100, data_cpus=18, plant=100, toolruns=650, hex=120, trace=1500,
+    "quick": dict(generic=5000, data=1100, data_cpus=18, plant=100, toolruns=650, hex=120, trace=1500,
                   t_asl=12, t_tool=1.5),
-    "thorough": dict(generic=10 ** 9, data=45000, data_cpus=10 ** 9, plant=3000, toolruns=10 ** 9, hex=10 ** 9,
+    "thorough": dict(generic=60000, data=36000, data_cpus=10 ** 9, plant=3000, toolruns=10 ** 9, hex=10 ** 9,
                      trace=20000, t_asl=30, t_tool=3),
 }
 
@@ -105,6 +105,7 @@ def stratified(cases, n, r, keyf):
     """seed-chosen sample of n cases containing at least one case of every stratum"""
     if n >= len(cases):
         return list(cases)
+    only_strata = n <= 0
     by = {}
     for c in cases:
         by.setdefault(keyf(c), []).append(c)
@@ -115,6 +116,8 @@ def stratified(cases, n, r, keyf):
         out.append(lst[0])
         rest += lst[1:]
     r.shuffle(rest)
+    if only_strata:
+        return out
     if len(out) > n:
         r.shuffle(out)
         return out[:n]
@@ -298,7 +301,15 @@ def main(tier):
     datac = [c for c in cases if c["g"] == "da"]
 
     # ---- asl: generic statements ----------------------------------------------------------------------------
-    sample = stratified(generic, sz["generic"], r, lambda c: (c["s"]["op"], c["ctx"]))
+    # every (op, class, position) at least once, then every (op, context), then seed-chosen fill
+    first = stratified(generic, 0, r, lambda c: (c["s"]["op"], c["s"]["cls"], c["s"]["pos"])) if sz["generic"] < len(generic) else []
+    ids = set(id(c) for c in first)
+    second = [c for c in stratified([c for c in generic if id(c) not in ids], 0, r, lambda c: (c["s"]["op"], c["ctx"]))
+              if (c["s"]["op"], c["ctx"]) not in set((x["s"]["op"], x["ctx"]) for x in first)] if first else []
+    ids |= set(id(c) for c in second)
+    rest = [c for c in generic if id(c) not in ids]
+    r.shuffle(rest)
+    sample = (first + second + rest)[:max(sz["generic"], len(first) + len(second))] if first else list(generic)
     dialects = c03lib.DIALECTS[:5] if tier == "quick" else c03lib.DIALECTS
     jobs, meta = [], []
     ntrace = 0
@@ -317,7 +328,7 @@ def main(tier):
     with Phase("asl generic: %d cases" % len(jobs)):
         results = c03run.run_jobs(bld, jobs)
     execs, names = [], []
-    ndrift = {}
+    ndrift, dex = {}, {}
     for (c, cpu, src), j, res in zip(meta, jobs, results):
         rep.evaluated()
         rep.distinct(src, True)
@@ -330,6 +341,7 @@ def main(tier):
         elif drift:
             dk = (c["s"]["op"], c["ctx"], tuple(c["allowed"]), res["rc"])
             ndrift[dk] = ndrift.get(dk, 0) + 1
+            dex.setdefault(dk, c03lib.render_stmt(c["s"], cpu, 1, c["g"])[:60])
         if res.get("trace"):
             for x in to_trace_events(res["trace"]):
                 execs.append(x)
@@ -339,8 +351,8 @@ def main(tier):
     rep.part("asl_generic", runs=len(jobs), exit_class_mismatches=sum(ndrift.values()),
              mismatch_kinds=len(ndrift))
     for dk in sorted(ndrift, key=lambda k: -ndrift[k])[:12]:
-        rep.drift("exit class: %s in ctx %s: model allows %s, asl exits %s (%d cases)" % (dk[0], dk[1], list(dk[2]),
-                                                                                        dk[3], ndrift[dk]))
+        rep.drift("exit class: %s in ctx %s: model allows %s, asl exits %s (%d cases, e.g. `%s`)" %
+                  (dk[0], dk[1], list(dk[2]), dk[3], ndrift[dk], dex[dk]))
 
     # ---- asl: data pseudo ops of every CPU family ----------------------------------------------------------
     cpus = c03lib.corpus_cpus()
